@@ -381,6 +381,23 @@ def _n_eff(c_or_l):
     return a.n_inner_samples
 
 
+def _n_eff_loop(l):
+    """what the statement demands: the per-call override if given, else the constructor value (entry state)"""
+    from pyvc.sym import NONE
+    if l.run.args0.get('n_inner_samples') is NONE:
+        return l.old.n_inner_samples
+    return l.a.n_inner_samples
+
+
+def _n_loc(l):
+    """the number of inner samples the loop works with: the (resolved) local if it is a number, else the configured field"""
+    from pyvc.sym import SNum
+    v = l.run.env.get('n_inner_samples')
+    if isinstance(v, SNum):
+        return v.t
+    return l.self.n_inner_samples
+
+
 def _tracker_or_base(mvt_view, k):
     """the tracker of key k before an update: its own tracker if tracked, else a fresh base copy"""
     T = mvt_view.tracked_value
@@ -529,9 +546,8 @@ fn('IncrementalPFI.explain_one', F + 'pfi.py', self_cls='Explainer', params=_exp
                l.v.pfi.val[l.self.feature_names.arr[j]] ==
                MEANLOSS(l.self._loss_function, l.a.y_i, l.g.PR.val[l.self.feature_names.arr[j]]) - l.v.original_loss))),
            'calls': lambda l: land(l.cnt('impute') == l.entry_cnt('impute') + l.i,
-                                   implies(l.self._imputer.kind == 1, l.cnt('model') == l.entry_cnt('model') + l.i * l.v.n_inner_samples)),
-           'frame': lambda l: land(l.v.x_i.t == l.a.x_i.t, l.v.n_inner_samples == l.entry.n_inner_samples,
-                                   l.v.original_loss == l.entry.original_loss),
+                                   implies(l.self._imputer.kind == 1, l.cnt('model') == l.entry_cnt('model') + l.i * _n_loc(l))),
+           'frame': lambda l: land(l.v.x_i.t == l.a.x_i.t, l.v.original_loss == l.entry.original_loss),
        },
        body={
            # the imputer is asked for exactly this one feature, the instance itself and n inner samples
@@ -540,7 +556,7 @@ fn('IncrementalPFI.explain_one', F + 'pfi.py', self_cls='Explainer', params=_exp
                _impute_calls(l.body_events)[0]['args']['feature_subset'].n == 1,
                _impute_calls(l.body_events)[0]['args']['feature_subset'].arr[0] == pack_key(l.elem),
                _impute_calls(l.body_events)[0]['args']['x_i'].t == l.a.x_i.t,
-               _impute_calls(l.body_events)[0]['args']['n_samples'].t == l.v.n_inner_samples),
+               _impute_calls(l.body_events)[0]['args']['n_samples'].t == _n_eff_loop(l)),
        })])
 
 
@@ -662,7 +678,7 @@ def _subset_is_complement(l):
         # the imputer receives exactly the features NOT yet revealed (the complement of the coalition)
         forall_key(lambda k: sub.dom[k] == land(names_set(names)(k), lnot(_perm_before(perm, l.i + 1)(k))),
                    pats=lambda k: [sub.dom[k]]),
-        ev[0]['args']['x_i'].t == l.a.x_i.t, ev[0]['args']['n_samples'].t == l.v.n_inner_samples)
+        ev[0]['args']['x_i'].t == l.a.x_i.t, ev[0]['args']['n_samples'].t == _n_eff_loop(l))
 
 
 def _cut_last_subset_empty(run, a, recv):
@@ -856,8 +872,7 @@ fn('IncrementalSage.explain_one', F + 'sage/incremental.py', self_cls='Explainer
            'tail': lambda l: implies(land(l.i >= 1, l.i == l.n), l.v.sample_loss ==
                                      LOSS(l.self._loss_function, l.a.y_i, MODEL(l.self._model_function, l.a.x_i.t))),
            'calls': lambda l: land(l.cnt('impute') == l.entry_cnt('impute') + l.i,
-                                   implies(l.self._imputer.kind == 1, l.cnt('model') == l.entry_cnt('model') + l.i * l.v.n_inner_samples)),
-           'frame': lambda l: land(l.v.x_i.t == l.a.x_i.t, l.v.n_inner_samples == l.entry.n_inner_samples,
-                                   l.v.permutation_chain.t == l.entry.permutation_chain.t),
+                                   implies(l.self._imputer.kind == 1, l.cnt('model') == l.entry_cnt('model') + l.i * _n_loc(l))),
+           'frame': lambda l: land(l.v.x_i.t == l.a.x_i.t, l.v.permutation_chain.t == l.entry.permutation_chain.t),
        },
        body={'complement_subset': _subset_is_complement})])
